@@ -1,3 +1,48 @@
-From MW Require Import Num.
-Theorem placeholder : True. Proof. exact I. Qed.
-Print Assumptions placeholder.
+(*  C20 — Results are invariant to arm names and to the order of training rows.
+   
+    PROVED:
+     * renaming: for every renaming f of the arms under which label equality is preserved (every injection), the
+       renamed arm sees, in the renamed history, exactly the reward batches the original arm sees - so by the
+       closed forms of C01 every statistic is unchanged (structural: holds bit-for-bit);
+     * row order (exact arithmetic): permuting the rows of a batch leaves the sum and the number of rewards of
+       every arm unchanged;
+     * shift law (exact arithmetic): adding c to every reward of a non-empty list shifts its mean by exactly c
+       (EpsilonGreedy exploit value; UCB1 adds a bonus that does not depend on the rewards; Softmax subtracts the
+       maximal mean, so the shift cancels).
+    ..._partial: LinGreedy's scale law and Radius/LSH row-order invariance are checked by the transformed-twin
+    relation on the implementation. *)
+From Coq Require Import List ZArith Bool Arith QArith Qcanon Permutation.
+From MW Require Import Num Assoc AssocFacts Rng Par CF CFInv CFClean CFForget CFSpec Matrix Lin Warm WarmInv Nbr NbrFacts NbrIndep LshFacts Clu Tree CellFacts Mab FacadeCF FacadeArms MoreFacts NumLaws CFAlg Sim Extra QcInst.
+Import ListNotations.
+
+Theorem C20_renamed_arm_sees_the_same_reward_batches :
+  forall (R A B : Type) (aeqb : A -> A -> bool) (beqb : B -> B -> bool) (f : A -> B),
+  (forall x y : A, beqb (f x) (f y) = aeqb x y) ->
+  forall (rops : list (@cfop R A)) (a : A),
+  batches_rev beqb (map (relabel_op f) rops) (f a) = batches_rev aeqb rops a.
+Proof. exact @batches_relabel. Qed.
+Print Assumptions C20_renamed_arm_sees_the_same_reward_batches.
+
+Theorem C20_row_order_irrelevant_partial :
+  forall (R A : Type) (N : Num R),
+  NumLaws N ->
+  forall (aeqb : A -> A -> bool) (a : A) (rows rows' : list (A * R)),
+  Permutation rows rows' ->
+  nsum N (arm_rewards aeqb a (map fst rows) (map snd rows)) =
+  nsum N (arm_rewards aeqb a (map fst rows') (map snd rows')) /\
+  length (arm_rewards aeqb a (map fst rows) (map snd rows)) =
+  length (arm_rewards aeqb a (map fst rows') (map snd rows')).
+Proof. exact @row_order_irrelevant. Qed.
+Print Assumptions C20_row_order_irrelevant_partial.
+
+Theorem C20_mean_shift_law :
+  forall (R : Type) (N : Num R),
+  NumLaws N ->
+  forall (l : list R) (c : R),
+  l <> [] ->
+  div N (nsum N (map (fun r : R => add N r c) l)) (of_Z N (Z.of_nat (length l))) =
+  add N (div N (nsum N l) (of_Z N (Z.of_nat (length l)))) c.
+Proof. exact @mean_shift. Qed.
+Print Assumptions C20_mean_shift_law.
+
+
